@@ -233,6 +233,10 @@ pub struct BodySpec {
     pub export: bool,
     /// create and immediately drop an extra node inside the closure
     pub temp: bool,
+    /// an extra expression built by the closure that is not part of its result but is handed to
+    /// the driver (observable from the top level)
+    #[serde(default)]
+    pub side: Option<Box<BodyExpr>>,
     pub fx: Vec<EffectSpec>,
 }
 
